@@ -240,7 +240,8 @@ class NativeFilestore(VirtualFilestore):
             with open(file, "x"):
                 pass
             return FilestoreResponseStatusCode.CREATE_SUCCESS
-        except OSError:
+        except (OSError, ValueError):
+            # ValueError: the host can not store the name at all, for example an embedded NUL byte.
             _LOGGER.exception(f"Creating file {file} failed")
             return FilestoreResponseStatusCode.CREATE_NOT_ALLOWED
 
